@@ -31,7 +31,11 @@ for d in sorted(glob.glob('/verif/seeded/*/meta.json')):
         mid, m.get('property'), str(m.get('title', '')).replace('|', '/')[:110], ', '.join(m.get('files_changed', []))[:60],
         str(m.get('trigger', '')).replace('|', '/').replace('\n', ' ')[:160], v.get('demo_on_clean_tree_rc'), v.get('demo_on_mutated_tree_rc'),
         {True: 'yes', False: 'NO', None: '?'}[v.get('baseline_suite_passes_with_mutant')], c))
+fc = [json.load(open(d)).get('verification', {}).get('final_check') for d in sorted(glob.glob('/verif/seeded/*/meta.json'))]
+fc = [x for x in fc if x]
 rows.append('')
+rows.append('Regression against the final machinery (after all generator and driver changes of the campaign): %d of the first-wave mutants were re-run, %d reported again%s.' % (
+    len(fc), sum(1 for x in fc if x['caught']), '' if all(x['caught'] for x in fc) else ' (the others: see meta.json final_check)'))
 rows.append('Totals: %d seeded mutants kept, %d reported by their property\'s quick check on the final machinery, %d of them only after the check was strengthened.' % (n, caught, missed_first))
 s = between(s, 'SEEDED-TABLE', '\n'.join(rows))
 open(P, 'w').write(s)
